@@ -73,7 +73,7 @@ def main():
                     breaks.append({'kind': 'theorem', 'what': 'lake build of the property file failed', 'log': build_log[-2000:]})
             names, axioms, bad = ([], {}, [])
             if ok:
-                names, axioms, bad = vlib.axiom_audit(prop)
+                names, axioms, bad = vlib.axiom_audit(prop, getattr(mod, 'THEOREM_FILES', None))
                 for n, why in bad:
                     breaks.append({'kind': 'axiom', 'what': f'theorem {n}: {why}'})
             for f, h in vlib.source_audit():
@@ -113,7 +113,7 @@ def main():
     n_theorems = len(names)
     n_bad = len({b['what'] for b in breaks if b['kind'] in ('theorem', 'axiom')})
     coverage = {
-        'obligations': max(n_theorems, 1) if ok else max(len(vlib.theorems_of(prop)[0]), 1),
+        'obligations': max(n_theorems, 1) if ok else max(sum(len(vlib.theorems_of(f)[0]) for f in getattr(mod, 'THEOREM_FILES', [prop])), 1),
         'discharged': n_theorems - len(bad) if ok else 0,
         'checker_cmd': f'cd /verif/lean && lake build Avra.Props.{prop} && lake env lean /verif/.cache/Audit{prop}.lean   (kernel check of every theorem + #print axioms)',
         'trusted_base': vlib.TRUSTED_BASE + getattr(mod, 'TRUSTED_EXTRA', []),
